@@ -106,6 +106,12 @@ func (s *Storer) newRunId(id string) error {
 		return err
 	}
 
+	if id == s.runId && s.dataSet != nil {
+		// the index of this run id is live : it carries the reference counts of the open readers
+		// and writers, which a rebuild from the directory would lose
+		return nil
+	}
+
 	s.runId = id
 	s.dir = dir
 
